@@ -7,6 +7,7 @@ import (
 
 	"github.com/truora/minidyn/interpreter"
 	"github.com/truora/minidyn/types"
+	"github.com/truora/minidyn/verifhook"
 )
 
 // QueryInput struct to represent a query input
@@ -412,6 +413,8 @@ func (t *Table) SearchData(input QueryInput) ([]map[string]*types.Item, map[stri
 	)
 
 	for pos := range sortedKeys {
+		verifhook.At("core.search.nextKey")
+
 		k := GetKeyAt(sortedKeys, sortedKeysSize, int64(pos), forward)
 
 		pk, ok := prepareSearch(&input, index, k, startKey, startIndexKey)
@@ -575,6 +578,8 @@ func (t *Table) Put(input *types.PutItemInput) (map[string]*types.Item, error) {
 	t.setItem(key, item)
 
 	for _, index := range t.Indexes {
+		verifhook.At("core.put.beforeIndex")
+
 		err := index.putData(key, item)
 		if err != nil {
 			return nil, types.NewError("ValidationException", err.Error(), nil)
@@ -690,6 +695,8 @@ func (t *Table) Update(input *types.UpdateItemInput) (map[string]*types.Item, er
 
 	// update secondary Indexes
 	for _, index := range t.Indexes {
+		verifhook.At("core.update.beforeIndex")
+
 		err := index.updateData(key, item, oldItem)
 		if err != nil {
 			return nil, types.NewError("ValidationException", err.Error(), nil)
@@ -748,6 +755,8 @@ func (t *Table) Delete(input *types.DeleteItemInput) (map[string]*types.Item, er
 	t.SortedKeys = t.SortedKeys[:len(t.SortedKeys)-1]
 
 	for _, index := range t.Indexes {
+		verifhook.At("core.delete.beforeIndex")
+
 		err := index.delete(key, item)
 		if err != nil {
 			return nil, types.NewError("ValidationException", err.Error(), nil)
